@@ -646,6 +646,11 @@ def generate(ctx):
     for _ in range(ctx.scale(12, 120)):
         cases += cases_for_journal(random_journal(ctx.rng, ctx.rng.randrange(3, maxlen + 1)))
     cases += malformed_cases(ctx.rng, ctx.scale(300, 3000))
+    # one LONG journal (more than a thousand rows in one recover_messages range): paging / batching inside the journal or
+    # the replay loop does not show on a dozen rows
+    big = ["A"] + ["D"] * 1100 + ["0", "0", "0"] + ["D"] * 100
+    for b, e in (("1", "0"), ("500", "1010"), ("1000", "1001"), ("2", "1204"), ("1102", "0")):
+        cases.append({"slots": big, "begin": b, "end": e, "state": "ACTIVE"})
     return cases
 
 
